@@ -73,7 +73,21 @@ static int run_op(const std::string &op, size_t cap, size_t r, size_t w, size_t 
   return same(b, ref, op.c_str()) ? 0 : 1;
 }
 
+// copy-assignment into a destination in an arbitrary representation state
+static int run_assign_into(size_t cap, size_t r, size_t w, size_t cap2, size_t r2, size_t w2) {
+  if (!(r <= w && w <= cap && r2 <= w2 && w2 <= cap2)) return 0;
+  Buffer b(cap), c(cap2); std::deque<uint8_t> ref;
+  b.read_index_ = r; b.write_index_ = w; for (size_t i = r; i < w; ++i) { b.buffer_ptr_[i] = pat(i); ref.push_back(pat(i)); }
+  c.read_index_ = r2; c.write_index_ = w2; for (size_t i = r2; i < w2; ++i) c.buffer_ptr_[i] = pat(500 + i);
+  c = b;
+  if (!same(c, ref, "copy-assign into a used buffer")) return 1;
+  if (ref.size()) c.readableBegin()[0] ^= 0xff;
+  return same(b, ref, "write to the copy") ? 0 : 1;
+}
+
 int main(int argc, char **argv) {
+  if (argc >= 8 && !strcmp(argv[1], "assign_into"))
+    return run_assign_into(strtoull(argv[2], 0, 10), strtoull(argv[3], 0, 10), strtoull(argv[4], 0, 10), strtoull(argv[5], 0, 10), strtoull(argv[6], 0, 10), strtoull(argv[7], 0, 10));
   if (argc >= 7 && !strcmp(argv[1], "op"))
     return run_op(argv[2], strtoull(argv[3], 0, 10), strtoull(argv[4], 0, 10), strtoull(argv[5], 0, 10), strtoull(argv[6], 0, 10));
   if (argc >= 3 && !strcmp(argv[1], "search")) {
@@ -84,6 +98,10 @@ int main(int argc, char **argv) {
       for (size_t cap = 0; cap <= 10; ++cap) for (size_t w = 0; w <= cap; ++w) for (size_t r = 0; r <= w; ++r) for (size_t n = 0; n <= 12; ++n)
         if (run_op(op, cap, r, w, n)) { printf("input: op %s cap=%zu read=%zu write=%zu n=%zu\n", op, cap, r, w, n); return 1; }
     }
+    if (!strcmp(argv[2], "all") || !strcmp(argv[2], "cloneFrom") || !strcmp(argv[2], "assign_copy") || !strcmp(argv[2], "shrink"))
+      for (size_t cap = 0; cap <= 6; ++cap) for (size_t w = 0; w <= cap; ++w) for (size_t r = 0; r <= w; ++r)
+        for (size_t cap2 = 0; cap2 <= 6; ++cap2) for (size_t w2 = 0; w2 <= cap2; ++w2) for (size_t r2 = 0; r2 <= w2; ++r2)
+          if (run_assign_into(cap, r, w, cap2, r2, w2)) { printf("input: assign_into src(cap=%zu r=%zu w=%zu) dst(cap=%zu r=%zu w=%zu)\n", cap, r, w, cap2, r2, w2); return 1; }
     return 0;
   }
   fprintf(stderr, "usage: op <name> <cap> <read> <write> <n> | search <op|all>\n"); return 2;
